@@ -21,6 +21,16 @@ def world_jobs(profiles, tier, seed, quick_count, thorough_count, length=60, als
     return jobs
 
 
+def capacity_jobs(tier, seed):
+    """large batches / merges across capacity boundaries (observations thinned: worlds get big)"""
+    if tier == "quick":
+        return [{"engine": "world", "name": "world-capacity", "also_release": True,
+                 "args": ["--seed", seed * 7919 + 77, "--count", 40, "--len", 30, "--profile", "capacity", "--obs-every", 5]}]
+    return [{"engine": "world", "name": f"world-capacity-{s}", "also_release": s == 0,
+             "args": ["--seed", seed * 7919 + 77 + 104729 * (s + 1), "--count", 150, "--len", 40, "--profile", "capacity", "--obs-every", 5]}
+            for s in range(NSHARD_THOROUGH)]
+
+
 def hash_s(s):
     h = 0
     for c in s:
@@ -37,7 +47,7 @@ WORLD_TRUST = [
 def plan(pid, tier, seed):
     q = tier == "quick"
     if pid == "C01":
-        return {"jobs": world_jobs(["mixed", "batch"], tier, seed, 120, 40000, also_release=True), "release": True,
+        return {"jobs": world_jobs(["mixed", "batch"], tier, seed, 120, 40000, also_release=True) + capacity_jobs(tier, seed), "release": True,
                 "trusted_base": WORLD_TRUST,
                 "assumptions": ["fewer than 2^32 entities; no generation wrap; no panics out of user code"]}
     if pid == "C02":
@@ -68,10 +78,10 @@ def plan(pid, tier, seed):
     if pid == "C11":
         return {"jobs": world_jobs(["containers"], tier, seed, 250, 40000, length=80), "trusted_base": CONT_TRUST}
     if pid == "C12":
-        return {"jobs": world_jobs(["containers", "batch"], tier, seed, 200, 40000, length=80, also_release=True), "release": True,
+        return {"jobs": world_jobs(["containers", "batch"], tier, seed, 200, 40000, length=80, also_release=True) + capacity_jobs(tier, seed), "release": True,
                 "trusted_base": CONT_TRUST}
     if pid == "C04":
-        return {"jobs": world_jobs(["containers", "mixed", "query"], tier, seed, 150, 30000, length=80, also_release=True), "release": True,
+        return {"jobs": world_jobs(["containers", "mixed", "query"], tier, seed, 150, 30000, length=80, also_release=True) + capacity_jobs(tier, seed), "release": True,
                 "trusted_base": CONT_TRUST + ["the allocator returns aligned, disjoint blocks; provenance and the actual reads/writes of the "
                                               "unsafe code are runtime facts outside the model (partial)"],
                 "assumptions": ["partial: Lean proves the layout arithmetic the unsafe code relies on; that the code performs exactly "
